@@ -48,6 +48,12 @@ CHECKS = {
                    "for the whole adapters it is checked metamorphically on model and implementation",
         "assumptions": E2E_ASSUME,
     },
+    "C09": {
+        "module": "Vanguard.Props.C09", "namespace": "Vanguard.C09", "streams": ["envelope", "e2e"],
+        "partial": "corrupt compressed payloads and undecodable payloads are covered by the per-message theorem of C01 (error, never altered data) "
+                   "and by correspondence; a declared Content-Length the body does not honour is outside the in-memory harness (net/http enforces it)",
+        "assumptions": E2E_ASSUME,
+    },
     "C11": {
         "module": "Vanguard.Props.C11", "namespace": "Vanguard.C11", "streams": ["e2e", "codes"],
         "partial": "panic-freedom is proved for every outcome-reporting path; for the writer/reader loops it is checked by correspondence; "
